@@ -28,7 +28,7 @@ pub fn run(seed: u64, ntraces: usize) {
         let tmaddr = sc_addr(0x20);
         let ty = *r.pick(&[0u64, 0, 0, 1, 2, 2, 3, 4]);
         let token: Option<Vec<u8>> = match ty { 0 => None, 2 | 3 => Some(if r.chance(1, 4) { b"EGLD".to_vec() } else { tok.clone() }), _ => Some(tok.clone()) };
-        let operator: Option<VMAddress> = if r.chance(3, 4) { Some(op.clone()) } else { None };
+        let operator: Option<VMAddress> = if r.chance(3, 4) || t % 3 != 0 { Some(op.clone()) } else { None };
         let tid = r.bytes(32);
         let mut now = 100_000 + r.below(50_000); w.set_time(now);
         let mut params = opt_addr_nested(&operator); params.extend(opt_token_nested(&token));
@@ -54,6 +54,8 @@ pub fn run(seed: u64, ntraces: usize) {
         if t % 3 == 0 && cur_token.is_some() { forced = if t % 6 == 0 { vec![(2, 40), (1, 40), (2, 8), (0, 40), (0, 8), (0, 1)] } else { vec![(1, 50), (2, 40), (0, 40), (2, 8), (1, 40), (1, 8)] }; }
         // directed role schedule (every third trace): propose, accept, hand back, replay the accept; (kind, 10*caller + target) over users [s, op, m, f, x]
         if t % 3 == 1 && operator.is_some() { forced = vec![(7, 14), (8, 41), (6, 41), (8, 41), (7, 13), (7, 14), (8, 31), (8, 41), (8, 41)]; }
+        // directed: the operator takes the flow-limiter role away from the service, which then tries to move the limit (kinds 3/4/5: 10*caller + target)
+        if t % 3 == 2 && operator.is_some() && cur_token.is_some() { forced = vec![(2, 30), (4, 10), (2, 1000), (0, 500), (0, 30), (3, 13), (2, 1000), (5, 13), (2, 7)]; }
         for _ in 0..(nops + forced.len()) {
             now += if !forced.is_empty() { 1 } else { match r.below(8) { 0 => EPOCH_TIME, 1 => EPOCH_TIME - (now % EPOCH_TIME), 2 => (EPOCH_TIME - (now % EPOCH_TIME)).saturating_sub(1), _ => r.below(500) } };
             w.set_time(now);
@@ -94,8 +96,8 @@ pub fn run(seed: u64, ntraces: usize) {
                     opj = json!({"op": "setLimit", "caller": hx(caller.as_bytes()), "limit": l.to_string()});
                 }
                 3 | 4 | 5 => {
-                    let caller = if r.chance(2, 3) { op.clone() } else { anyone.clone() };
-                    let a = r.pick(&users).clone(); let b = r.pick(&users).clone();
+                    let (caller, a) = if let Some((_, ca)) = fo { (users[(ca / 10) as usize].clone(), users[(ca % 10) as usize].clone()) } else { (if r.chance(2, 3) { op.clone() } else { anyone.clone() }, r.pick(&users).clone()) };
+                    let b = if fo.is_some() { users[0].clone() } else { r.pick(&users).clone() };
                     let (name, ep, args) = match k { 3 => ("addFL", "addFlowLimiter", vec![a.to_vec()]), 4 => ("removeFL", "removeFlowLimiter", vec![a.to_vec()]),
                                                       _ => ("transferFL", "transferFlowLimiter", vec![a.to_vec(), b.to_vec()]) };
                     step = w.tx(&caller, &tmaddr, ep, args, &bn(0), &[]);
